@@ -139,7 +139,7 @@ size_t cbor_serialized_size(const cbor_item_t* item) {
     case CBOR_TYPE_TAG: {
       return _cbor_safe_signaling_add(
           _cbor_encoded_header_size(cbor_tag_value(item)),
-          cbor_serialized_size(cbor_move(cbor_tag_item(item))));
+          cbor_serialized_size(item->metadata.tag_metadata.tagged_item));
     }
     case CBOR_TYPE_FLOAT_CTRL:
       switch (cbor_float_get_width(item)) {
@@ -358,8 +358,9 @@ size_t cbor_serialize_tag(const cbor_item_t* item, unsigned char* buffer,
   size_t written = cbor_encode_tag(cbor_tag_value(item), buffer, buffer_size);
   if (written == 0) return 0;
 
-  size_t item_written = cbor_serialize(cbor_move(cbor_tag_item(item)),
-                                       buffer + written, buffer_size - written);
+  size_t item_written =
+      cbor_serialize(item->metadata.tag_metadata.tagged_item, buffer + written,
+                     buffer_size - written);
   if (item_written == 0) return 0;
   return written + item_written;
 }
